@@ -634,6 +634,10 @@ class Term:
         r = self.__eq__(o)
         return r if r is NotImplemented else not r
 
+    def __bool__(self):
+        # truthiness of a Python number: x != 0 (forks like any other decision)
+        return not self.ctx.decide_cond(self.z == 0)
+
     def __hash__(self):
         raise OutsideEncoding("hash of a symbolic value")
 
